@@ -8,6 +8,8 @@ import (
 	"flag"
 	"fmt"
 	"os"
+	"runtime"
+	"runtime/pprof"
 	"strings"
 	"syscall"
 
@@ -34,10 +36,37 @@ func main() {
 		fmt.Fprintln(os.Stderr, "usage: harness -property Cxx -tier quick|thorough -seed N -out file.json")
 		os.Exit(2)
 	}
+	if pf := os.Getenv("VERIF_PROF"); pf != "" {
+		if f, err := os.Create(pf); err == nil {
+			_ = pprof.StartCPUProfile(f)
+			defer pprof.StopCPUProfile()
+		}
+	}
+	if bf := os.Getenv("VERIF_BLOCKPROF"); bf != "" {
+		runtime.SetBlockProfileRate(1000)
+		runtime.SetMutexProfileFraction(10)
+		defer func() {
+			if f, err := os.Create(bf); err == nil {
+				pprof.Lookup("block").WriteTo(f, 0)
+				f.Close()
+			}
+			if f, err := os.Create(bf + ".mutex"); err == nil {
+				pprof.Lookup("mutex").WriteTo(f, 0)
+				f.Close()
+			}
+		}()
+	}
 	r, err := prog.Run(*property, *tier, *seed)
 	if err != nil {
 		fmt.Fprintln(os.Stderr, "harness error:", err)
 		os.Exit(2)
+	}
+	if prog.IsWorker() {
+		if err := prog.WriteWorker(*out, r); err != nil {
+			fmt.Fprintln(os.Stderr, "harness worker error:", err)
+			os.Exit(2)
+		}
+		return
 	}
 	if err := r.Write(*out); err != nil {
 		fmt.Fprintln(os.Stderr, "harness error:", err)
